@@ -26,9 +26,12 @@ assumptions = [
     "hardware/compiler integer->float and float->float conversions round to nearest, ties to even (modelled by Spec/Float.lean)",
     "glibc strtoimax/strtoumax follow the modelled grammar (C locale, bases 0/8/10/16, saturation with ERANGE); "
     "isspace/isgraph are the C-locale tables, undefined outside 0..255",
-    "strtof/strtod/strtold are not modelled: floating targets of text are checked differentially against an exact rational "
-    "oracle computed in vlib/props/c07.py (they convert the longest numeral prefix and round to nearest-even; glibc 2.36 "
-    "misrounds inexact hexadecimal numerals in the subnormal range, such numerals are not generated)",
+    "strtof/strtod/strtold are not modelled: the theorem about text->float takes their result as an oracle that obeys "
+    "'overflow => infinity and ERANGE'; the values are checked differentially against an exact rational oracle computed in "
+    "vlib/props/c07.py (longest numeral prefix, round to nearest-even; glibc 2.36 misrounds inexact hexadecimal numerals in the "
+    "subnormal range, such numerals are not generated)",
+    "isspace/isgraph are called with plain char in the text functions: bytes above 0x7f are negative arguments, which glibc's "
+    "tables cover (neither blank nor printable)",
     "NaN sources are limited to the default quiet NaN; float->integer conversions are refused by the code (BadType) and only sampled",
 ]
 trusted = [
